@@ -636,7 +636,10 @@ class Recorder(object):
             elif name == 'arch_on':
                 f.archived(True)
             elif name == 'set_archive':
-                f.archive(self.slots[o['x'] - 1].obj)
+                if o['x'] == 0:
+                    f.archive(self.klepto._archives.null_archive())      # the archive is replaced by the null archive
+                else:
+                    f.archive(self.slots[o['x'] - 1].obj)
             elif name == 'arm_fault':
                 c = f.__cache__()
                 if c.archived() and hasattr(c.archive, 'fail_next'):
